@@ -113,14 +113,14 @@ Section thms.
   Proof. intro H. cbn. apply String.eqb_neq in H. now rewrite H. Qed.
 
   Definition writes (m : modcall) : bool :=
-    match m with MSetVars _ | MInclude _ => true | _ => false end.
+    match m with MSetVars _ | MSetLit _ _ | MInclude _ => true | _ => false end.
 
   (* modules other than set_vars / include hand the store back untouched: in particular the
      task's own `vars` and the rendered parameters never persist *)
   Lemma exec_mod_keeps_store t st ext evs r :
     writes (t_mod t) = false -> exec_mod t st ext = MOk evs r -> m_vars r = st.
   Proof.
-    unfold Engine.exec_mod. destruct (t_mod t) as [tp|p|kvs|es|l o rc|l|f|]; cbn [writes]; try discriminate; intros _ H;
+    unfold Engine.exec_mod. destruct (t_mod t) as [tp|p|kvs|k v|es|l o rc|l|f|]; cbn [writes]; try discriminate; intros _ H;
       repeat match goal with
       | H : context [match ?x with _ => _ end] |- _ => destruct x eqn:?
       end; inversion H; reflexivity.
